@@ -16,6 +16,7 @@ use serde_json::json;
 
 fn variant_block<T: Real + Elem>(ctx: &mut Ctx, lens: &[usize]) {
     ctx.flush_calls = true;
+    ctx.mixed_type_constructors();
     // a custom element type: SIMD planners must decline whatever the configuration
     for k in ALL_KINDS {
         let _ = ctx.new_planner::<Counting>(k);
@@ -82,6 +83,11 @@ pub fn run_c13(ctx: &mut Ctx) {
     let dense = (8 * n_max).min(s_max);
     lens.extend(structured_lengths(dense as u64).into_iter().map(|x| x as usize).filter(|&x| x > n_max));
     lens.extend(big_lengths(dense as u64, s_max as u64).into_iter().map(|x| x as usize));
+    // the large-prime paths are where the capability levels differ most (RadersAvx2 with 32/64-bit index vectors, the portable
+    // Rader inside the AVX planner without AVX2, SSE, scalar): a sample of the Rader-friendly primes above 2^16, and a Bluestein prime
+    let step = if ctx.quick() { 9 } else { 2 };
+    lens.extend(crate::util::rader_primes(1 << 16, 1 << 17).into_iter().enumerate().filter(|(i, _)| i % step == (ctx.seed as usize) % step).map(|(_, p)| p as usize));
+    lens.push(65543);
     let mut item = 0;
     for b in lens.chunks(8) {
         for elem in ["f32", "f64"] {
